@@ -159,6 +159,17 @@ def taikoPerfFromMap (A : SecArith R) (fuel : Nat) (bytes : List UInt8) (mods : 
 
 def TaikoB.fresh : TaikoB R := ⟨none, none, none, none, none⟩
 
+/-- the values `TaikoGradualDifficulty::next` yields for the `hitsIn hits` hits of the map (the gradual machine of
+`Model/Gradual.lean` with the concrete five skills; `Props/C02g.lean` is about exactly this list) -/
+def taikoGradualList (A : SecArith R) (fuel : Nat) (hw : R) (hits : List Bool) (recs : List (Rosu.TaikoSkill.TObj R)) :
+    List (Gradual.Res (Nat × SkillOps.Res (Rosu.TaikoSkill.Skills R))) :=
+  ((Gradual.taikoMachine (Rosu.PipelineTaiko.concreteSkills5 A fuel hw false recs) hits).nexts
+      (Gradual.taikoNew (Rosu.PipelineTaiko.concreteSkills5 A fuel hw false recs) hits) ((hits.filter id).length)).1.map
+    fun r => match r with
+      | Gradual.Res.some (mc, s) => Gradual.Res.some (mc, Rosu.PipelineTaiko.combine5 s)
+      | Gradual.Res.none => Gradual.Res.none
+      | Gradual.Res.panic => Gradual.Res.panic
+
 /-- **`TaikoGradualPerformance`** advanced to the `i`-th HIT (`i ≥ 1`; taiko's `passed_objects` counts hits) with
 state `s`; `none` = exhausted -/
 def taikoGradualPerfValue (A : SecArith R) (fuel : Nat) (bytes : List UInt8) (mods : Nat) (customRate : Option Nat)
@@ -170,7 +181,7 @@ def taikoGradualPerfValue (A : SecArith R) (fuel : Nat) (bytes : List UInt8) (mo
     | .ok (hits, recs) =>
       if i = 0 then .ok none
       else
-        match (Rosu.PipelineTaiko.gradualValues A fuel greatHitWindow hits recs)[i - 1]? with
+        match (taikoGradualList A fuel greatHitWindow hits recs)[i - 1]? with
         | none => .ok none
         | some .none => .ok none
         | some .panic => .panic
